@@ -657,7 +657,8 @@ func CrashAlphabet(d *DAG) []Op {
 	ops = append(ops,
 		Op{Kind: "tag", Node: 2, Ref: "a"}, Op{Kind: "tag", Node: 3, Ref: "a"}, Op{Kind: "tag", Node: 2, Ref: "b"},
 		Op{Kind: "tag", Node: 0, Ref: "c"}, Op{Kind: "tag", Node: 3, Ref: "b", Ann: true}, Op{Kind: "tag", Node: 4, Ref: "c"},
-		Op{Kind: "tag", Node: 3, Ref: "b"}, // the same content and reference as the annotated tag: only the descriptor's annotations differ
+		Op{Kind: "tag", Node: 3, Ref: "b"},            // the same content and reference as the annotated tag: only the descriptor's annotations differ
+		Op{Kind: "tag", Node: 3, Ref: "a", Ann: true}, // a second reference tagged with the same annotated descriptor (one shared annotations map)
 		Op{Kind: "untag", Ref: "a"}, Op{Kind: "untag", Ref: "b"},
 		Op{Kind: "delete", Node: 0}, Op{Kind: "delete", Node: 2}, Op{Kind: "delete", Node: 3}, Op{Kind: "delete", Node: 1},
 		Op{Kind: "gc"}, Op{Kind: "save"})
